@@ -210,13 +210,22 @@ def check_frozen_inputs(ctx, R):
     `unprotected()`, not by a creating method after it computed its input, not through the signer handed to `add_*signature`;
     the signers already pushed are only ever appended to."""
     from rules import c19
+    from spec import builders as B
     from lib.prov import subterms as _sub
     prog = ctx.prog.view("all")
     n = 0
     for bname, methods in sorted(c19.builders(prog).items()):
         if not bname.startswith(("sign::", "mac::", "encrypt::")):
             continue
+        wty, wadt = c19.wrapped_type(prog, bname)
+        fields = {fd["name"] for fd in wadt["variants"][0]["fields"]} if wadt else set()
         for f in sorted(methods, key=lambda x: x.key):
+            if not f.is_pub and f.key not in B.EFFECTS and f.key not in HELPERS:
+                continue    # private helpers are part of the public methods' net effect
+            if f.name not in fields and f.name not in ("new", "build") and f.key not in B.EFFECTS and f.key not in HELPERS:
+                # an addition to the API whose documentation this checker does not know (C19 notes it too): nothing is claimed
+                ctx.note("%s: public builder method outside the documented-effects table; not checked" % f.key)
+                continue
             n += 1
             bad = []
             for e in c19.norm_effects(Prov(f)):
